@@ -62,6 +62,13 @@ def int : P Int := do
 
 def str : P String := do pure (decode (← tok))
 
+/-- a possibly empty string: `E` followed by the %-encoded text -/
+def estr : P String := do
+  let t ← tok
+  match t.toList with
+  | 'E' :: r => pure (decode (String.ofList r))
+  | _ => failure
+
 def many {α} (p : P α) : Nat → P (List α)
   | 0 => pure []
   | n + 1 => do let a ← p; let r ← many p n; pure (a :: r)
@@ -105,8 +112,11 @@ def frame : P FrameD := do
   let marker ← str; let name ← str; let file ← nat; let s ← site
   let nats ← counted str
   let after ← counted str
+  let nested ← nat
+  let pre ← counted estr
   let hs ← handlers
-  pure { marker, name, file, site := s, natives := nats, handlers := hs, afterReturn := after }
+  pure { marker, name, file, site := s, natives := nats, handlers := hs, afterReturn := after,
+         nested := nested != 0, preLines := pre }
 
 def final : P Final := do
   match (← tok) with
@@ -120,6 +130,7 @@ def final : P Final := do
       | some n => pure (.exit (some n))
       | none => failure
   | "finish" => pure .finish
+  | "importfail" => pure .importFail
   | _ => failure
 
 def chain : P Chain := do
